@@ -13,6 +13,7 @@ from AoE2ScenarioParser.helper.string_manipulations import create_textual_hex, i
     trunc_string, add_tabs
 from AoE2ScenarioParser.sections.aoe2_struct_model import AoE2StructModel, model_dict_from_structure
 from AoE2ScenarioParser.sections.dependencies.dependency import handle_retriever_dependency
+from AoE2ScenarioParser.sections.dependencies.dependency_action import DependencyAction
 from AoE2ScenarioParser.sections.retrievers.retriever import Retriever, reset_retriever_map
 
 if TYPE_CHECKING:
@@ -106,13 +107,25 @@ class AoE2FileSection:
         if set_defaults:
             reset_retriever_map(duplicate_rmap)
 
-        return cls(
+        section = cls(
             name=model.name,
             retriever_map=duplicate_rmap,
             uuid=uuid,
             struct_models=model.structs,
             level=SectionLevel.STRUCT
         )
+
+        if set_defaults:
+            # Optional blocks (repeat decided on construct, e.g. by the trigger version) must follow their condition
+            # in default-constructed structs too, otherwise they are written while a reader will not expect them
+            for retriever in duplicate_rmap.values():
+                on_construct = getattr(retriever, 'on_construct', None)
+                if getattr(on_construct, 'dependency_action', None) == DependencyAction.SET_REPEAT:
+                    handle_retriever_dependency(retriever, "construct", section, uuid)
+                    if retriever.datatype.repeat == 0:
+                        retriever.set_data([], affect_dirty=False)
+
+        return section
 
     @classmethod
     def from_structure(cls, section_name: str, structure: Dict[str, Dict], uuid: UUID) -> 'AoE2FileSection':
